@@ -3,7 +3,7 @@
 (* and keyword probe calls ran]].                                                                                               *)
 EXTENDS MambaAPI, Json, IOUtils
 Rec == ndJsonDeserialize(IOEnv.TRACE)
-One(o, m) == IF ~m.acc THEN "skip:rejected" ELSE IF ~m.parses THEN "skip:does-not-parse"
+One(o, m) == IF ~m.acc THEN "skip:rejected" ELSE IF ~m.parses THEN "violation:emitted-module-is-not-python"      \* then nothing it defines exists for a caller
              ELSE IF ~SameAPI(o.prog, m.api) THEN "violation:python-api-differs-from-the-mamba-definitions"
              ELSE IF ~m.probe THEN "violation:definition-not-callable-as-its-signature-reads"
              ELSE "ok"
